@@ -722,3 +722,122 @@ Example C06_parser_agreement_compose_inhabited :
   /\ parse_url true ex_hp ex_hp ex_hd None None (B "a://u s@h:80/p?q#f") = POk (auth_url ex_hd sch ui h pt p q f)
   /\ ser (auth_url ex_hd sch ui h pt p q f) = B "a://u%20s@h:80/p?q#f".
 Proof. exact compose_inhabited. Qed.
+
+(* 18. WHOLE-URL parser agreement - the literal clause "identical to what the parser produces for the same text in
+   that position".  For a canonical record u (C02's Canon: every Url::parse result of a non-file scheme without base,
+   closed under these setters - C02_set_fragment_Canon / C02_set_query_Canon / C02_set_port_Canon and, for the
+   credentials, Proofs/C06_SpliceCred.v: set_password_auth / set_username_auth compute the canonical result) and a
+   successful call, Parser::parse_url (no base, no encoding override) on the OLD serialization with the RAW argument
+   text standing in the component's position returns EXACTLY the record the setter returns - serialization, the seven
+   offsets, host kind and port.  The spliced texts are read off the record (splice_fragment, splice_query, splice_port,
+   splice_password, splice_username).  Exclusions, each exact in the sense that the parser would end the component there
+   while the setter encodes the character: set_fragment - the argument does not END in a C0 control or space (parse_url
+   trims the input); set_query - no '#', and no such ending when the URL has no fragment; set_port - none;
+   set_password - non-empty, no TAB/LF/CR, '@', '/', '?', '#' ('\' for special schemes); set_username - the same and no ':'.
+   The bound nlen (ser u') <= U32_MAX_P is the parser's own u32 check.
+   NOT covered: set_path, set_host (state-level agreement only: C06_parser_agreement_set_path / _set_host), removal calls
+   (argument None / empty password), file URLs. *)
+From RU Require Import Proofs.C02_Canon Proofs.C06_Splice Proofs.C06_SpliceAuth Proofs.C06_SpliceCred Proofs.C06_SpliceEx.
+
+Theorem C06_splice_agreement_set_fragment : forall dbg hp hpo hd u x u', HostRT hp hpo hd -> Canon hp hpo hd u ->
+  usv_list x -> first_ok (rev (35 :: x)) ->
+  set_fragment dbg u (Some x) = Some u' -> nlen (ser u') <= U32_MAX_P ->
+  parse_url dbg hp hpo hd None None (splice_fragment u x) = POk u'.
+Proof. intros dbg hp hpo hd u x u' HRT. exact (splice_agreement_set_fragment dbg hp hpo hd HRT u x u'). Qed.
+Check C06_splice_agreement_set_fragment : forall dbg hp hpo hd u x u', HostRT hp hpo hd -> Canon hp hpo hd u ->
+  usv_list x -> first_ok (rev (35 :: x)) ->
+  set_fragment dbg u (Some x) = Some u' -> nlen (ser u') <= U32_MAX_P ->
+  parse_url dbg hp hpo hd None None (splice_fragment u x) = POk u'.
+Print Assumptions C06_splice_agreement_set_fragment.
+
+Theorem C06_splice_agreement_set_query : forall dbg hp hpo hd u x u', HostRT hp hpo hd -> Canon hp hpo hd u ->
+  usv_list x -> no_hash x = true -> (fragment_start u = None -> first_ok (rev (63 :: x))) ->
+  set_query dbg u (Some x) = Some u' -> nlen (ser u') <= U32_MAX_P ->
+  parse_url dbg hp hpo hd None None (splice_query u x) = POk u'.
+Proof. intros dbg hp hpo hd u x u' HRT. exact (splice_agreement_set_query dbg hp hpo hd HRT u x u'). Qed.
+Check C06_splice_agreement_set_query : forall dbg hp hpo hd u x u', HostRT hp hpo hd -> Canon hp hpo hd u ->
+  usv_list x -> no_hash x = true -> (fragment_start u = None -> first_ok (rev (63 :: x))) ->
+  set_query dbg u (Some x) = Some u' -> nlen (ser u') <= U32_MAX_P ->
+  parse_url dbg hp hpo hd None None (splice_query u x) = POk u'.
+Print Assumptions C06_splice_agreement_set_query.
+
+Theorem C06_splice_agreement_set_port : forall dbg hp hpo hd u n u', HostRT hp hpo hd -> Canon hp hpo hd u -> n <= 65535 ->
+  set_port dbg u (Some n) = Some (u', SOk) -> nlen (ser u') <= U32_MAX_P ->
+  parse_url dbg hp hpo hd None None (splice_port u n) = POk u'.
+Proof. intros dbg hp hpo hd u n u' HRT. exact (splice_agreement_set_port dbg hp hpo hd HRT u n u'). Qed.
+Check C06_splice_agreement_set_port : forall dbg hp hpo hd u n u', HostRT hp hpo hd -> Canon hp hpo hd u -> n <= 65535 ->
+  set_port dbg u (Some n) = Some (u', SOk) -> nlen (ser u') <= U32_MAX_P ->
+  parse_url dbg hp hpo hd None None (splice_port u n) = POk u'.
+Print Assumptions C06_splice_agreement_set_port.
+
+Theorem C06_splice_agreement_set_password : forall dbg hp hpo hd u y u', HostRT hp hpo hd -> Canon hp hpo hd u ->
+  usv_list y -> y <> [] -> forallb (plainc (sp_of u)) y = true ->
+  set_password dbg u (Some y) = Some (u', SOk) -> nlen (ser u') <= U32_MAX_P ->
+  parse_url dbg hp hpo hd None None (splice_password u y) = POk u'.
+Proof. intros dbg hp hpo hd u y u' HRT. exact (splice_agreement_set_password dbg hp hpo hd HRT u y u'). Qed.
+Check C06_splice_agreement_set_password : forall dbg hp hpo hd u y u', HostRT hp hpo hd -> Canon hp hpo hd u ->
+  usv_list y -> y <> [] -> forallb (plainc (sp_of u)) y = true ->
+  set_password dbg u (Some y) = Some (u', SOk) -> nlen (ser u') <= U32_MAX_P ->
+  parse_url dbg hp hpo hd None None (splice_password u y) = POk u'.
+Print Assumptions C06_splice_agreement_set_password.
+
+Theorem C06_splice_agreement_set_username : forall dbg hp hpo hd u x u', HostRT hp hpo hd -> Canon hp hpo hd u ->
+  usv_list x -> forallb (fun c => plainc (sp_of u) c && negb (c =? 58)) x = true ->
+  set_username dbg u x = Some (u', SOk) -> nlen (ser u') <= U32_MAX_P ->
+  parse_url dbg hp hpo hd None None (splice_username u x) = POk u'.
+Proof. intros dbg hp hpo hd u x u' HRT. exact (splice_agreement_set_username dbg hp hpo hd HRT u x u'). Qed.
+Check C06_splice_agreement_set_username : forall dbg hp hpo hd u x u', HostRT hp hpo hd -> Canon hp hpo hd u ->
+  usv_list x -> forallb (fun c => plainc (sp_of u) c && negb (c =? 58)) x = true ->
+  set_username dbg u x = Some (u', SOk) -> nlen (ser u') <= U32_MAX_P ->
+  parse_url dbg hp hpo hd None None (splice_username u x) = POk u'.
+Print Assumptions C06_splice_agreement_set_username.
+
+(* the five together *)
+Definition C06_splice_agreement_stmt : Prop := forall dbg hp hpo hd u, HostRT hp hpo hd -> Canon hp hpo hd u ->
+  (forall x u', usv_list x -> first_ok (rev (35 :: x)) -> set_fragment dbg u (Some x) = Some u' -> nlen (ser u') <= U32_MAX_P ->
+     parse_url dbg hp hpo hd None None (splice_fragment u x) = POk u')
+  /\ (forall x u', usv_list x -> no_hash x = true -> (fragment_start u = None -> first_ok (rev (63 :: x))) ->
+        set_query dbg u (Some x) = Some u' -> nlen (ser u') <= U32_MAX_P ->
+        parse_url dbg hp hpo hd None None (splice_query u x) = POk u')
+  /\ (forall n u', n <= 65535 -> set_port dbg u (Some n) = Some (u', SOk) -> nlen (ser u') <= U32_MAX_P ->
+        parse_url dbg hp hpo hd None None (splice_port u n) = POk u')
+  /\ (forall y u', usv_list y -> y <> [] -> forallb (plainc (sp_of u)) y = true ->
+        set_password dbg u (Some y) = Some (u', SOk) -> nlen (ser u') <= U32_MAX_P ->
+        parse_url dbg hp hpo hd None None (splice_password u y) = POk u')
+  /\ (forall x u', usv_list x -> forallb (fun c => plainc (sp_of u) c && negb (c =? 58)) x = true ->
+        set_username dbg u x = Some (u', SOk) -> nlen (ser u') <= U32_MAX_P ->
+        parse_url dbg hp hpo hd None None (splice_username u x) = POk u').
+Theorem C06_splice_agreement : C06_splice_agreement_stmt.
+Proof.
+  intros dbg hp hpo hd u HRT C. split; [|split; [|split; [|split]]].
+  - intros x u'. exact (splice_agreement_set_fragment dbg hp hpo hd HRT u x u' C).
+  - intros x u'. exact (splice_agreement_set_query dbg hp hpo hd HRT u x u' C).
+  - intros n u'. exact (splice_agreement_set_port dbg hp hpo hd HRT u n u' C).
+  - intros y u'. exact (splice_agreement_set_password dbg hp hpo hd HRT u y u' C).
+  - intros x u'. exact (splice_agreement_set_username dbg hp hpo hd HRT u x u' C).
+Qed.
+Check C06_splice_agreement : C06_splice_agreement_stmt.
+Print Assumptions C06_splice_agreement.
+
+(* the hypotheses are met: ex_hp / ex_hd satisfy HostRT, the records of "a://h:80/p?q#f" (qx_u) and "http://u:p@h/p"
+   (sx_u) are canonical, and each setter succeeds with an argument that needs encoding; the spliced texts are
+   "a://h:80/p?q#f g", "a://h:80/p?k v#f", "a://h:81/p?q#f", "a://:p:w@h:80/p?q#f", "a://u s@h:80/p?q#f",
+   "http://v w:p@h/p", "http://:p@h/p" (username removed, password kept), "http://u:p@h:80/p" (default port) *)
+Example C06_splice_agreement_inhabited :
+  HostRT ex_hp ex_hp ex_hd /\ Canon ex_hp ex_hp ex_hd qx_u /\ Canon ex_hp ex_hp ex_hd sx_u
+  /\ splice_case (set_fragment true qx_u (Some (B "f g"))) (splice_fragment qx_u (B "f g")) (B "a://h:80/p?q#f g") "a://h:80/p?q#f%20g"
+  /\ first_ok (rev (35 :: B "f g"))
+  /\ splice_case (set_query true qx_u (Some (B "k v"))) (splice_query qx_u (B "k v")) (B "a://h:80/p?k v#f") "a://h:80/p?k%20v#f"
+  /\ no_hash (B "k v") = true
+  /\ splice_case (ok_of (set_port true qx_u (Some 81))) (splice_port qx_u 81) (B "a://h:81/p?q#f") "a://h:81/p?q#f"
+  /\ splice_case (ok_of (set_password true qx_u (Some (B "p:w")))) (splice_password qx_u (B "p:w")) (B "a://:p:w@h:80/p?q#f") "a://:p%3Aw@h:80/p?q#f"
+  /\ forallb (plainc (sp_of qx_u)) (B "p:w") = true
+  /\ splice_case (ok_of (set_username true qx_u (B "u s"))) (splice_username qx_u (B "u s")) (B "a://u s@h:80/p?q#f") "a://u%20s@h:80/p?q#f"
+  /\ forallb (fun c => plainc (sp_of qx_u) c && negb (c =? 58)) (B "u s") = true
+  /\ splice_case (ok_of (set_username true sx_u (B "v w"))) (splice_username sx_u (B "v w")) (B "http://v w:p@h/p") "http://v%20w:p@h/p"
+  /\ splice_case (ok_of (set_username true sx_u [])) (splice_username sx_u []) (B "http://:p@h/p") "http://:p@h/p"
+  /\ splice_case (ok_of (set_port true sx_u (Some 80))) (splice_port sx_u 80) (B "http://u:p@h:80/p") "http://u:p@h/p".
+Proof.
+  split; [exact (proj1 ex_host_RT)|]. split; [exact (proj1 splice_canon_examples)|]. split; [exact (proj2 splice_canon_examples)|].
+  exact splice_inhabited.
+Qed.
